@@ -298,6 +298,14 @@ func (s *exState) ex(v ssa.Value) string {
 				return s.ex(iv)
 			}
 		}
+		if fa, ok := v.X.(*ssa.FieldAddr); ok && v.Op == token.MUL {
+			if sv := localLitField(fa); sv != nil {
+				return s.ex(sv)
+			}
+			if sv := newFieldInit(fa); sv != nil {
+				return s.ex(sv)
+			}
+		}
 		x := s.ex(v.X)
 		switch v.Op {
 		case token.MUL:
@@ -1549,4 +1557,417 @@ func dependsOn(v, src ssa.Value) bool {
 		}
 	}
 	return false
+}
+
+// argsDeep: the arguments of a call, with a variadic `...interface{}` slice replaced by the values stored into it
+// (interface wrappers peeled).
+func argsDeep(cc *ssa.CallCommon) []ssa.Value {
+	var out []ssa.Value
+	peel := func(v ssa.Value) ssa.Value {
+		for {
+			switch x := v.(type) {
+			case *ssa.MakeInterface:
+				v = x.X
+			case *ssa.ChangeInterface:
+				v = x.X
+			default:
+				return v
+			}
+		}
+	}
+	for _, a := range cc.Args {
+		if sl, ok := a.(*ssa.Slice); ok {
+			if al, ok := sl.X.(*ssa.Alloc); ok && al.Referrers() != nil {
+				for _, rf := range *al.Referrers() {
+					if ia, ok := rf.(*ssa.IndexAddr); ok && ia.Referrers() != nil {
+						for _, rr := range *ia.Referrers() {
+							if st, ok := rr.(*ssa.Store); ok && st.Addr == ssa.Value(ia) {
+								out = append(out, peel(st.Val))
+							}
+						}
+					}
+				}
+				continue
+			}
+		}
+		out = append(out, peel(a))
+	}
+	return out
+}
+
+// errDerivedFrom: the error value v is src itself, or built from it: a phi with src (derived) on an edge, an
+// interface conversion, or the result of an error-returning call that receives src (fmt.Errorf("…: %w", err),
+// errors.Join, a repo wrapper) — i.e. returning v reports the failure src reported.
+func errDerivedFrom(v, src ssa.Value, depth int) bool {
+	if v == src {
+		return true
+	}
+	if depth > 5 || v == nil {
+		return false
+	}
+	switch x := v.(type) {
+	case *ssa.Phi:
+		for _, e := range x.Edges {
+			if errDerivedFrom(e, src, depth+1) {
+				return true
+			}
+		}
+	case *ssa.MakeInterface:
+		return errDerivedFrom(x.X, src, depth+1)
+	case *ssa.ChangeInterface:
+		return errDerivedFrom(x.X, src, depth+1)
+	case *ssa.Extract:
+		return errDerivedFrom(x.Tuple, src, depth+1)
+	case *ssa.Call:
+		if !returnsError(x) {
+			return false
+		}
+		for _, a := range argsDeep(&x.Call) {
+			if errDerivedFrom(a, src, depth+1) {
+				return true
+			}
+		}
+	case *ssa.Alloc:
+		// &T{…, err} error value built as a literal carrying src
+		if x.Comment == "complit" {
+			for _, fv := range litFields(x) {
+				if errDerivedFrom(fv, src, depth+1) {
+					return true
+				}
+			}
+		}
+	}
+	return false
+}
+
+func returnsError(call *ssa.Call) bool {
+	if typeStr(call.Type()) == "error" {
+		return true
+	}
+	if tup, ok := call.Type().(*types.Tuple); ok {
+		for i := 0; i < tup.Len(); i++ {
+			if typeStr(tup.At(i).Type()) == "error" {
+				return true
+			}
+		}
+	}
+	return false
+}
+
+// fieldInfluence lists the reads of struct field f (anywhere in the repo) whose value can influence behaviour:
+// reads whose value flows — through arithmetic, conversions and phis — only into a store to the same field
+// (x.f++ / x.f += n: an accumulator) or into the result of a function that stores nothing (a getter) are not
+// listed. A field with no listed read is write-only bookkeeping (statistics), not state.
+func (c *Ctx) fieldInfluence(f *types.Var) []string {
+	var out []string
+	for _, fn := range c.AllFns {
+		// storesAny: the function writes a struct field other than one of its own local variables (not a getter)
+		storesAny := false
+		for _, in := range allInstrs(fn) {
+			if st, ok := in.(*ssa.Store); ok {
+				if fv, base := fieldOfAddr(st.Addr); fv != nil {
+					if _, local := base.(*ssa.Alloc); !local {
+						storesAny = true
+					}
+				}
+			}
+		}
+		for _, in := range allInstrs(fn) {
+			var loaded ssa.Value
+			switch x := in.(type) {
+			case *ssa.UnOp:
+				if x.Op == token.MUL {
+					if fv, _ := fieldOfAddr(x.X); fv == f {
+						loaded = x
+					}
+				}
+			case *ssa.Field:
+				if st, ok := x.X.Type().Underlying().(*types.Struct); ok && st.Field(x.Field) == f {
+					loaded = x
+				}
+			case *ssa.FieldAddr:
+				// address escapes other than load/store (passed to a call: e.g. atomic ops are calls on &x.f, fine for
+				// sync/atomic types; anything else is treated as an influencing read)
+				if fv, _ := fieldOfAddr(x); fv == f && x.Referrers() != nil {
+					for _, rf := range *x.Referrers() {
+						switch y := rf.(type) {
+						case *ssa.Store:
+							if y.Addr != ssa.Value(x) {
+								out = append(out, c.Pos(y.Pos())+" (address stored)")
+							}
+						case *ssa.UnOp, *ssa.DebugRef:
+						case ssa.CallInstruction:
+							n := calleeName(y.Common())
+							if !(strings.HasPrefix(n, "(atomic.") && (strings.HasSuffix(n, ").Add") || strings.HasSuffix(n, ").Store") || (strings.HasSuffix(n, ").Load") && !storesAny))) {
+								out = append(out, c.Pos(y.Pos())+" ("+n+")")
+							}
+						default:
+							out = append(out, c.Pos(rf.Pos())+" (address used)")
+						}
+					}
+				}
+			}
+			if loaded == nil {
+				continue
+			}
+			seen := map[ssa.Value]bool{}
+			var harmful func(v ssa.Value) bool
+			harmful = func(v ssa.Value) bool {
+				if seen[v] {
+					return false
+				}
+				seen[v] = true
+				refs := v.Referrers()
+				if refs == nil {
+					return false
+				}
+				for _, rf := range *refs {
+					switch y := rf.(type) {
+					case *ssa.DebugRef:
+					case *ssa.BinOp:
+						if harmful(y) {
+							return true
+						}
+					case *ssa.Convert:
+						if harmful(y) {
+							return true
+						}
+					case *ssa.ChangeType:
+						if harmful(y) {
+							return true
+						}
+					case *ssa.Phi:
+						if harmful(y) {
+							return true
+						}
+					case *ssa.Store:
+						fv, base := fieldOfAddr(y.Addr)
+						if fv == f && y.Val == v {
+							continue
+						}
+						// copied into a field of a local struct (a snapshot literal): follow the local
+						if la, local := base.(*ssa.Alloc); local && fv != nil && la.Referrers() != nil {
+							bad := false
+							for _, lr := range *la.Referrers() {
+								switch z := lr.(type) {
+								case *ssa.FieldAddr, *ssa.DebugRef:
+								case *ssa.UnOp:
+									if harmful(z) {
+										bad = true
+									}
+								default:
+									bad = true
+								}
+							}
+							if bad {
+								return true
+							}
+							continue
+						}
+						return true
+					case *ssa.Return:
+						if storesAny {
+							return true
+						}
+					default:
+						return true
+					}
+				}
+				return false
+			}
+			if harmful(loaded) {
+				out = append(out, fnLocalName(fn)+" reads it at "+c.Pos(in.Pos()))
+			}
+		}
+	}
+	sort.Strings(out)
+	return out
+}
+
+// localLitField: fa addresses field f of a local struct variable (possibly captured by closures) whose field f is
+// assigned exactly once, in the declaring function (typically by its composite literal), and whose address is
+// never handed out: the value assigned. A read of `key.SystemID` after `key := streamNode{SystemID: x}` is x.
+func localLitField(fa *ssa.FieldAddr) ssa.Value {
+	var a *ssa.Alloc
+	switch b := fa.X.(type) {
+	case *ssa.Alloc:
+		a = b
+	case *ssa.FreeVar:
+		a = rootAlloc(b)
+	}
+	if a == nil {
+		return nil
+	}
+	if _, ok := a.Type().(*types.Pointer).Elem().Underlying().(*types.Struct); !ok {
+		return nil
+	}
+	var stores []*ssa.Store
+	ok := true
+	var visit func(alias ssa.Value)
+	visit = func(alias ssa.Value) {
+		refs := alias.Referrers()
+		if refs == nil {
+			return
+		}
+		for _, rf := range *refs {
+			switch x := rf.(type) {
+			case *ssa.DebugRef:
+			case *ssa.UnOp:
+				if x.Op != token.MUL {
+					ok = false
+				}
+			case *ssa.FieldAddr:
+				if x.Field != fa.Field || x.Referrers() == nil {
+					continue
+				}
+				for _, rr := range *x.Referrers() {
+					switch y := rr.(type) {
+					case *ssa.Store:
+						if y.Addr == ssa.Value(x) {
+							stores = append(stores, y)
+						} else {
+							ok = false
+						}
+					case *ssa.UnOp, *ssa.DebugRef:
+					default:
+						ok = false
+					}
+				}
+			case *ssa.MakeClosure:
+				cf := x.Fn.(*ssa.Function)
+				for i, b := range x.Bindings {
+					if b == alias && i < len(cf.FreeVars) {
+						visit(cf.FreeVars[i])
+					}
+				}
+			default:
+				ok = false
+			}
+		}
+	}
+	visit(a)
+	if !ok || len(stores) != 1 || stores[0].Parent() != a.Parent() {
+		return nil
+	}
+	// not inside a loop relative to the allocation (one value per variable instance)
+	if inLoop(stores[0].Block()) && !inLoop(a.Block()) {
+		return nil
+	}
+	return stores[0].Val
+}
+
+// allFnsGlobal: the functions of the program being analysed (set by the loader) for whole-program lookups made
+// while rendering.
+var allFnsGlobal []*ssa.Function
+var fieldInitCache = map[*types.Var]ssa.Value{}
+var debugEx = false
+
+// newFieldInit: fa addresses, through the receiver of a method, a private struct field that does not exist on the
+// reference tree and is assigned exactly once in the whole program — in a method of the same type, through its
+// receiver, from constants and other receiver fields (a value cached at initialisation, e.g. a reflect.Type):
+// the value assigned. The field is then rendered as the expression it caches.
+func newFieldInit(fa *ssa.FieldAddr) ssa.Value {
+	isRecv := func(v ssa.Value) bool {
+		// the receiver itself, or its spill slot when closures capture it
+		if u, ok := v.(*ssa.UnOp); ok && u.Op == token.MUL {
+			if a, ok := u.X.(*ssa.Alloc); ok {
+				if sv := spilledValue(a); sv != nil {
+					v = sv
+				}
+			}
+		}
+		p, ok := v.(*ssa.Parameter)
+		return ok && p.Parent().Signature.Recv() != nil && len(p.Parent().Params) > 0 && p.Parent().Params[0] == p
+	}
+	if !isRecv(fa.X) || len(knownMembers) == 0 {
+		return nil
+	}
+	st := fa.X.Type().Underlying().(*types.Pointer).Elem().Underlying().(*types.Struct)
+	f := st.Field(fa.Field)
+	if v, ok := fieldInitCache[f]; ok {
+		return v
+	}
+	fieldInitCache[f] = nil
+	named, ok := fa.X.Type().Underlying().(*types.Pointer).Elem().(*types.Named)
+	if !ok || f.Exported() || f.Pkg() == nil || !strings.HasPrefix(f.Pkg().Path(), modPath) {
+		return nil
+	}
+	if _, known := knownMembers[pkgKey(f.Pkg().Path())+":field:"+named.Obj().Name()+"."+f.Name()]; known {
+		return nil
+	}
+	var val ssa.Value
+	n := 0
+	for _, fn := range allFnsGlobal {
+		for _, in := range allInstrs(fn) {
+			switch x := in.(type) {
+			case *ssa.Store:
+				if fv, base := fieldOfAddr(x.Addr); fv == f {
+					n++
+					if isRecv(base) && !inLoop(x.Block()) {
+						val = x.Val
+					}
+				}
+			case *ssa.FieldAddr:
+				// address handed out
+				if fv, _ := fieldOfAddr(x); fv == f && x.Referrers() != nil {
+					for _, rf := range *x.Referrers() {
+						switch y := rf.(type) {
+						case *ssa.Store:
+							if y.Addr != ssa.Value(x) {
+								n += 2
+							}
+						case *ssa.UnOp, *ssa.DebugRef:
+						default:
+							n += 2
+						}
+					}
+				}
+			}
+		}
+	}
+	var recvBuilt func(v ssa.Value, d int) bool
+	recvBuilt = func(v ssa.Value, d int) bool {
+		if d > 6 {
+			return false
+		}
+		if isRecv(v) {
+			return true
+		}
+		switch x := v.(type) {
+		case *ssa.Const:
+			return true
+		case *ssa.UnOp:
+			return x.Op == token.MUL && recvBuilt(x.X, d+1)
+		case *ssa.FieldAddr:
+			return recvBuilt(x.X, d+1)
+		case *ssa.Convert:
+			return recvBuilt(x.X, d+1)
+		case *ssa.MakeInterface:
+			return recvBuilt(x.X, d+1)
+		case *ssa.ChangeInterface:
+			return recvBuilt(x.X, d+1)
+		case *ssa.Call:
+			if !x.Call.IsInvoke() && x.Call.StaticCallee() == nil {
+				return false
+			}
+			if x.Call.IsInvoke() && !recvBuilt(x.Call.Value, d+1) {
+				return false
+			}
+			for _, a := range x.Call.Args {
+				if !recvBuilt(a, d+1) {
+					return false
+				}
+			}
+			return true
+		}
+		return false
+	}
+	if debugEx {
+		fmt.Printf("newFieldInit %s: n=%d val=%v built=%v\n", f.Name(), n, val != nil, val != nil && recvBuilt(val, 0))
+	}
+	if n != 1 || val == nil || !recvBuilt(val, 0) {
+		return nil
+	}
+	fieldInitCache[f] = val
+	return val
 }
